@@ -169,6 +169,9 @@ func soloMarshal(cfg world.InstCfg, ptr interface{}) (b []byte, errs string, pan
 }
 
 func soloUnmarshal(cfg world.InstCfg, t reflect.Type, data []byte) (v reflect.Value, errs string, panicked string) {
+	engine.Install()
+	engine.BeginSolo(1000 + 64*len(data))
+	defer engine.EndSolo()
 	defer func() {
 		if r := recover(); r != nil {
 			panicked = fmt.Sprint(r)
